@@ -1,4 +1,4 @@
-HOOK_COMMITS = ["341cf12", "11958cd", "a42f779", "36abb38", "cf8069d"]
+HOOK_COMMITS = ["341cf12", "11958cd", "a42f779", "36abb38", "cf8069d", "bc0d863", "66898da"]
 NOTES = ("Verdicts come only from property monitors evaluated by TLC on events recorded from the real code; a "
          "conformance divergence between code and specification is reported in the evidence but is never a violation. "
          "Fix commits in /repo: 00358e6 (F7), c768102 (F1), 92c7e00 (F5), 905c7fb (F2), 18b399f (F4); known findings F6, F8; see known_findings.json.")
@@ -53,6 +53,31 @@ CHECKS.update({
             "ref": "6/C07", "note": _A + "; the OBSERVE_SEQNO polling loop, config watching and error handling of rollback_mitigation.go need a "
                     "connected gocbcore agent and are not executed (the reply handler's table update is reproduced in couchbase/export_verif.go "
                     "from its real parts)", "technique": _T},
+    "C10": {"text": "MemberCB.tla models the Couchbase heart-beat membership of a group of instances at the granularity of their key-value "
+                    "requests (register, heartbeat, the three phases of a monitor round: read index, read every instance document, CAS-rewrite + "
+                    "rebalance; CAS mismatch -> retry; missing / stale documents dropped; ageing and expiry of a stopped instance's document). "
+                    "The monitor MemberMon.tla states C10 over observables only (Joined, Gone, Announce(i,n,t), Crashed, Stable): at stability "
+                    "every live instance holds <<its position in join order, group size>>, numbers are pairwise distinct, every vBucket has exactly "
+                    "one owner under the partition rule, a numbering is announced only when it differs, no live instance crashes. TLC checks "
+                    "MemberCB => monitor for every interleaving of the rounds of 3 instances with joins / deaths at any moment, plus convergence "
+                    "under weak fairness. TLC-generated behaviours (random, groups of 4 and 8; BFS witnesses of named situations such as a CAS retry "
+                    "or a same-size membership change) are executed on groups of REAL couchbase.NewCBMembership instances over real couchbase.NewClient "
+                    "connections to a simulated Couchbase node (harness/simnode), every key-value request of a monitor round held and released per "
+                    "instance; MonMember.tla (TLC) judges the recorded announcements.",
+            "ref": "6/C10", "note": "real cbMembership + real client + gocbcore against a simulated node; time modelled by ageing documents on the "
+                    "server; joins are atomic w.r.t. other instances (the property separates joins by quiet periods). The static and dynamic "
+                    "mechanisms hold their numbering by construction (configuration / last API request) and the leader-assigned (Kubernetes) "
+                    "variant needs pod-to-pod RPC on one port per pod: see DESIGN 0.6", "technique": _T},
+    "C17": {"text": "Config.tla transcribes ApplyDefaults helper by helper as a sequential process over an options record (unset = Go zero value) "
+                    "and TLC checks, from every configuration of the family (nothing / everything / every single option / every pair of options set, "
+                    "to the default value itself or another value, x environment overrides), that defaults fill, explicit values survive, the "
+                    "environment wins and a second application changes nothing; ConfigGet.tla does the same for the derived Couchbase-metadata / "
+                    "membership / leader-election records under override maps; DataUnit.tla for size strings with exact integer arithmetic; "
+                    "EnvSubst.tla for ${VAR} layouts. Every initial state prints a table row; vfunc replays the rows into the real config.Dcp, the real "
+                    "getters, helpers.ResolveUnionIntOrStringValue and newDcpConfig (a YAML file per row); MonConfig.tla (TLC) judges what they returned.",
+            "ref": "6/C17", "note": "pure functions: TLA+ decides a transcription, the binding is table replay; two representative values per option; sizes "
+                    "beyond 2 GiB do not fit TLC's 32-bit integers",
+            "technique": "TLA+ transcription model-checked exhaustively (TLC) + table replay into the real functions + TLC re-check of their outputs"},
     "C08": {"text": "rollback on stream open as an environment choice in Core.tla (any R <= F): after it nothing at or below F "
                     "is shown, everything above is, offsets carry the new branch uuid; exhaustive in TLC, monitored on rig-A "
                     "traces (the fake client plays the part of client.OpenStream's rollback path; the second stream request "
